@@ -103,11 +103,24 @@ ADDED2 = {
  "C16": " Added (R-CREATE): descriptor typestate over every path of file_create - closed exactly once on failure after a successful open, never on success; nothing destructive before the lock.",
  "C17": " Added (R-BIN2-PITCH): the row pitch of the vectorised binning kernel, in bytes, never exceeds the packed row length (linear upper bound)."
 }
+ADDED3 = {
+ "C03": " A re-check loop nested inside the predicate loop must notice every change of the outer predicate (L-RECHECK / nested).",
+ "C04": " The sink is told to stop only after the filter has finished (R-STOP-CHAIN; defect repaired).",
+ "C07": " R-STOP-CHAIN: the filter's last frame cannot be committed after the sink's final flush.",
+ "C08": " acquire_stop assigns exactly DeviceState_Armed on every path (R-STATE).",
+ "C09": " A failing sink refuses further writes on its input and discards what is left in it, in a loop until empty (defects repaired): stop returns with the writer blocked on a full ring, and nothing stale reaches the next acquisition.",
+ "C10": " R-STOP-CHAIN: the end-of-stream order filter before sink (defect repaired).",
+ "C12": " Nothing but std::regex_match compares the enumerated name in select (no prefix / case-sensitive comparator next to it).",
+ "C13": " A live record with owning members is not wiped without releasing them (O-OVERWRITE-OWNED, defect repaired); nothing the destination owns is released before the last read of a string parameter (R-ALIAS-SAFE).",
+ "C17": " Vector accesses of the binning kernel assume no more alignment than the buffers' allocator guarantees (R-VEC-ALIGN, defect repaired); the clamp limits are derived after the new settings are stored (R-CLAMP-FRESH).",
+ "C18": " HAL-STOP-REACHES: under every driver answer a started camera's stop reaches the driver (camera half of the C11 simulation)."
+}
 checks = []
 for pid, (eng, tech, text, note, ref) in sorted(CLAIMED.items()):
     tech += ADDED.get(pid, ("", ""))[0]
     text += ADDED.get(pid, ("", ""))[1]
     text += ADDED2.get(pid, "")
+    text += ADDED3.get(pid, "")
     checks.append({"property_id": pid, "quick_cmd": "./check %s --tier quick" % pid,
                    "thorough_cmd": "./check %s --tier thorough" % pid,
                    "evidence_file": "evidence/%s.json" % pid, "engine": eng, "technique": "static analysis: " + tech,
